@@ -65,6 +65,7 @@ def run(ctx):
 		lines, pf = safe_check(check, ctx, case)
 		ctx.submit(case, lines, nontrivial=(case.get('hex', 'x') != ''), tags=[tag], pyfails=pf)
 
+	ctx.submit({'kind': 'gen-facts'}, ['gen.facts'], nontrivial=False, tags=['gen-facts'])
 	# exhaustive: all k-mers over ACGT, k <= kmax
 	for k in range(0, kmax + 1):
 		for t in itertools.product(b'ACGT', repeat=k):
